@@ -392,6 +392,12 @@ def _base_trees(nmax, exps, unary_tilde=True):
         yield from E.gen_formulas(n, exps=exps, unary_tilde=unary_tilde)
 
 
+def _key_labellings(k):
+    """all-distinct (cyclic over a..d), all-equal, alternating, pairwise-equal"""
+    labs = [tuple(j % 4 for j in range(k)), (0,) * k, tuple(j % 2 for j in range(k)), tuple((j // 2) % 4 for j in range(k))]
+    return list(dict.fromkeys(labs))
+
+
 def w_base(args):
     n, exps, unary_tilde, shard, nshards, opts = args
     acc = Acc()
@@ -399,7 +405,7 @@ def w_base(args):
         if i % nshards != shard:
             continue
         k = E.count_slots(sk)
-        for lab in E.rgs(k, 4):
+        for lab in (E.rgs(k, 4) if opts.get("all_labellings", True) else _key_labellings(k)):
             tree = E.fill_slots(sk, [E.name(E.LETTERS[j]) for j in lab])
             check_tree(acc, tree, opts)
     return ("grammar-trees", acc.result())
@@ -661,13 +667,17 @@ def w_flags(args):
 
 
 # ---- identities (no reference semantics involved: two spellings, one formula) -----------
-def _operand_pool(nmax, labels):
+def _operand_pool(nmax, labels, seed=0):
     pool = []
-    for n in range(nmax + 1):
+    for n in range(min(nmax, 1) + 1):
         for sk in E.gen_expr(n, exps=(2,)):
             k = E.count_slots(sk)
             for lab in E.rgs(k, labels):
                 pool.append(E.fill_slots(sk, [E.name(E.LETTERS[j]) for j in lab]))
+    if nmax >= 2:
+        rng = random.Random(seed)
+        two = [E.fill_slots(sk, [E.name(E.LETTERS[j]) for j in lab]) for sk in E.gen_expr(2, exps=(2,)) for lab in E.rgs(E.count_slots(sk), labels)]
+        pool.extend(rng.sample(two, 40))
     pool.append(("un", "-", E.name("a")))
     pool.append(("par", ("bin", "-", "-", E.name("a"), E.name("a"))))
     pool.append(SPECIAL_QN)
@@ -696,11 +706,11 @@ def _b(op, l, r):
 
 
 def w_identities(args):
-    nmax, labels, shard, nshards, ctx_every = args
+    nmax, labels, shard, nshards, ctx_every, seed = args
     from formulaic import Formula
 
     acc = Acc()
-    pool = _operand_pool(nmax, labels)
+    pool = _operand_pool(nmax, labels, seed)
     wrappers = [
         ("plain", lambda e: ("formula", None, (e,), False)),
         ("two-sided", lambda e: ("formula", (E.name("y"),), (e,), False)),
@@ -946,18 +956,18 @@ def plan(ctx):
     if th:
         ns4 = 256
         for sh in range(ns4):
-            tasks.append((w_base, (4, (2,), False, sh, ns4, opts_big)))
+            tasks.append((w_base, (4, (2,), False, sh, ns4, dict(opts_big, formula_both=False, spaced=False, all_labellings=False))))
     nd = 32
     for sh in range(nd):
         tasks.append((w_deco, (2, 3 if th else 2, sh, nd, opts_small, opts_big, th)))
     if th:
         for sh in range(64):
-            tasks.append((w_deco3, (2, sh, 64, opts_big)))
+            tasks.append((w_deco3, (2, sh, 64, dict(opts_big, formula_both=False, spaced=False))))
     nc = 32
     for sh in range(nc):
         tasks.append((w_combo, (1, 2 if th else 1, 4 if th else 1, sh, nc, opts_big)))
     nr = 32
-    count = (200000 if th else 3200) // nr
+    count = (100000 if th else 3200) // nr
     for sh in range(nr):
         tasks.append((w_random, (seed * 1000 + sh, count, 4, 8, opts_big)))
     nn = 16
@@ -966,7 +976,7 @@ def plan(ctx):
     for sh in range(8):
         tasks.append((w_flags, (2, sh, 8, th)))
     for sh in range(16):
-        tasks.append((w_identities, (2 if th else 1, 3 if th else 2, sh, 16, 4 if th else 8)))
+        tasks.append((w_identities, (2 if th else 1, 3 if th else 2, sh, 16, 4 if th else 8, seed)))
     tasks.append((w_power_identity, ()))
     tasks.append((w_unbalanced, (2,)))
     for sh in range(8):
@@ -975,7 +985,8 @@ def plan(ctx):
 
 
 def w_deco3(args):
-    """thorough only: one decoration on every base tree with exactly 3 nodes (runs <= 2)."""
+    """thorough only: one sign/parenthesis decoration on every base tree with exactly 3 nodes
+    (all-distinct labelling, runs <= 2)."""
     runlen, shard, nshards, opts = args
     acc = Acc()
     runs = E.runs_upto(runlen)
@@ -983,11 +994,9 @@ def w_deco3(args):
         if i % nshards != shard:
             continue
         k = E.count_slots(sk)
-        # decorations on the all-distinct and the all-equal labelling only
-        for lab in (tuple(range(min(k, 4))) + (0,) * max(0, k - 4), (0,) * k):
-            tree = E.fill_slots(sk, [E.name(E.LETTERS[j]) for j in lab])
-            for d in decorations(tree, runs, runs):
-                check_tree(acc, d, opts)
+        tree = E.fill_slots(sk, [E.name(E.LETTERS[j % 4]) for j in range(k)])
+        for d in itertools.chain(E.deco_unary(tree, runs), E.deco_addrun(tree, runs), E.deco_par(tree)):
+            check_tree(acc, d, opts)
     return ("decorated-trees", acc.result())
 
 
@@ -1000,14 +1009,14 @@ def run_bounded(ctx):
     tasks = plan(ctx)
     th = ctx.thorough
     bounds = {
-        "grammar-trees": f"binary operator nodes <= {4 if th else 3}; exponents 1..3 for <= 2 nodes, 2 beyond; labels a..d",
-        "decorated-trees": "base trees <= 2 nodes" + (" (+ 3 nodes, two labellings, runs <= 2)" if th else " (2 nodes: all-distinct, all-equal and first=last labellings)"),
+        "grammar-trees": "binary operator nodes <= 3 with every labelling up to renaming over a..d" + ("; 4 nodes with 4 key labellings (all-distinct, all-equal, alternating, pairwise-equal)" if th else "") + "; exponents 1..3 for <= 2 nodes, 2 beyond",
+        "decorated-trees": "base trees <= 2 nodes" + (" (+ 3 nodes: sign-run and parenthesis decorations, all-distinct labelling, runs <= 2)" if th else " (2 nodes: all-distinct, all-equal and first=last labellings)"),
         "decorated-pairs": "base trees <= 1 node" + ("" if th else ", all-equal labelling"),
         "powers": "see rule",
-        "random-trees": f"{200000 if th else 3200} trees, seed {ctx.seed}",
+        "random-trees": f"{100000 if th else 3200} trees, seed {ctx.seed}",
         "sign-run-negative-space": f"base trees <= 2 nodes, runs <= {3 if th else 2} (<= 3 for <= 1 node)",
         "feature-flags": "base trees <= 2 nodes" + ("" if th else " (2 nodes: three key labellings)"),
-        "identities": f"operand pool: expressions <= {2 if th else 1} node(s)",
+        "identities": "operand pool: expressions <= 1 node" + (" (labels a..c) + 40 seeded expressions with 2 nodes" if th else " (labels a, b)"),
         "spec-forms": "base trees <= 2 nodes",
         "unbalanced": "base trees <= 2 nodes",
     }
